@@ -169,7 +169,8 @@ def stop_model(rates, k, max_cycles, fitness_error, es):
     if fitness_error is not None and rates[k - 1] <= fitness_error:
         return True
     if es is not None:
-        patience, min_delta = es["patience"], es["min_delta"]
+        patience = es["patience"] if es.get("patience") is not None else 1           # model defaults
+        min_delta = es["min_delta"] if es.get("min_delta") is not None else 1e-4
         # changes of the rate: d_j = rates[j] - rates[j-1]; the library's first "change" is rates[0] - 0 >= 0
         diffs = [rates[0] - 0] + [rates[j] - rates[j - 1] for j in range(1, k)]
         window = diffs[-patience:]
